@@ -331,7 +331,7 @@ func (w *world) flushOne(n *inst, tick int64, alerts string) {
 	w.record(fmt.Sprintf("done %d %d %s %s", n.idx, tick, res, w.entry(n)))
 }
 
-// round <t> <alerts> <skew0,skew1,…> <accept bits> <delay matrix rows ';' cols ','>
+// round <t> <alerts> <skew0,skew1,…> <accept bits> <delay matrix rows ';' cols ','> [<late0,late1,…>: tick = flush instant − late]
 func (w *world) exec(line string) string {
 	t := strings.Fields(line)
 	switch t[0] {
@@ -353,11 +353,17 @@ func (w *world) exec(line string) string {
 				g.accept.Store(t[4][i*w.nint+k] == '1')
 			}
 			sk := hx.Atoi64(skews[i])
+			// a flush that reaches the pipeline later than its tick (the previous flush overran, or every flush after
+			// a start waited for gossip to settle): notify.Now is older than the wall clock
+			late := int64(0)
+			if len(t) > 6 {
+				late = hx.Atoi64(strings.Split(t[6], ",")[i])
+			}
 			wg.Add(1)
 			go func(n *inst) {
 				defer wg.Done()
 				time.Sleep(time.Duration(sk))
-				w.flushOne(n, t0+sk, t[2])
+				w.flushOne(n, t0+sk-late, t[2])
 			}(n)
 		}
 		wg.Wait()
@@ -574,7 +580,18 @@ func runCase(t *testing.T, tr *hx.Trace, id int, r *rand.Rand, script []string) 
 					}
 					rows[i] = strings.Join(cols, ",")
 				}
-				do(fmt.Sprintf("round %d %s %s %s %s", now, hx.Join(as, ","), strings.Join(skews, ","), acc, strings.Join(rows, ";")))
+				lates := make([]string, n)
+				for i := range n {
+					l := int64(0)
+					if r.IntN(3) == 0 {
+						l = int64(1+r.IntN(40))*sec + int64(i)*ms
+					}
+					if l > now {
+						l = 0
+					}
+					lates[i] = strconv.FormatInt(l, 10)
+				}
+				do(fmt.Sprintf("round %d %s %s %s %s %s", now, hx.Join(as, ","), strings.Join(skews, ","), acc, strings.Join(rows, ";"), strings.Join(lates, ",")))
 				now += 40*sec + int64(n)*int64(peerTimeout) + 4*sec
 			case x < 16 && !healthy:
 				do(fmt.Sprintf("gc %d %d", now, r.IntN(n)))
